@@ -1,0 +1,78 @@
+//go:build verif
+// +build verif
+
+package reverse
+
+// Machine-checked contracts for the reverse-call plugin (comment-only file).
+//
+// C09, reverse direction: a service calls a function of a connected provider. Each call is
+// registered under a number in the per-provider table of pending calls (resultMap), the provider
+// returns batches of (number, result, error) triples, and Caller.end hands every triple to the
+// call registered under its number — and to no other. A triple whose number matches no pending
+// call is dropped and the rest of the batch is still delivered.
+
+//@ guarded resultMap.results by Mutex
+
+//@ func (returnValue).Index
+//@   prop C09
+//@   flag typeassert=panic
+//@   ensures [index_is_the_first_component] result == ival(r[0])
+
+// the table of pending calls of one provider: whole-view contracts
+//@ func (*resultMap).GetAndDelete
+//@   prop C09
+//@   nopanic
+//@   requires m != nil
+//@   modifies m.results[*], ghost.held[addr(m.Mutex)]
+//@   ensures [returns_the_registered_channel] old(haskey(m.results, index)) ==> result == old(m.results[index])
+//@   ensures [nil_when_not_registered] !old(haskey(m.results, index)) ==> result == nil
+//@   ensures [entry_removed] !haskey(m.results, index)
+//@   ensures [other_registrations_untouched] forall(k, k != index ==> haskey(m.results, k) == old(haskey(m.results, k)) && m.results[k] == old(m.results[k]))
+//@   ensures [lock_released] ghost.held[addr(m.Mutex)] == 0
+
+//@ func (*resultMap).Delete
+//@   prop C09 C10
+//@   nopanic
+//@   requires m != nil
+//@   modifies m.results[*], ghost.held[addr(m.Mutex)]
+//@   ensures [entry_removed] !haskey(m.results, index)
+//@   ensures [other_registrations_untouched] forall(k, k != index ==> haskey(m.results, k) == old(haskey(m.results, k)) && m.results[k] == old(m.results[k]))
+//@   ensures [lock_released] ghost.held[addr(m.Mutex)] == 0
+
+//@ func (*resultMap).Set
+//@   prop C09
+//@   nopanic
+//@   requires m != nil && m.results != nil
+//@   requires [index_not_pending] !haskey(m.results, index)
+//@   modifies m.results[*], ghost.held[addr(m.Mutex)]
+//@   ensures [registered] haskey(m.results, index) && m.results[index] == result
+//@   ensures [other_registrations_untouched] forall(k, k != index ==> haskey(m.results, k) == old(haskey(m.results, k)) && m.results[k] == old(m.results[k]))
+//@   ensures [lock_released] ghost.held[addr(m.Mutex)] == 0
+
+// the id a provider announces in its request headers (assumed: reads the context only)
+//@ func (*Caller).ID
+
+// Caller.end: the batch of results a provider returns.
+//@ func (*Caller).end
+//@   prop C09
+//@   havoc
+//@   flag typeassert=panic
+//@   requires c != nil
+//@   requires forall(s, ghost.cm_has[arr(c.results)][s] ==> ival(ghost.cm_val[arr(c.results)][s]) != 0)
+//@   modifies ghost.chansent[*], ghost.chanlen[*], ghost.held[*]
+//@   loop 1 invariant forall(j, 0, rangeidx(), ghost.cm_has[arr(c.results)][str(id)] ==>
+//@       !haskey(as(ghost.cm_val[arr(c.results)][str(id)], *resultMap).results, ival(results[j][0])))
+//@   loop 1 ensures [result_goes_to_the_call_registered_under_its_number]
+//@       ghost.cm_has[arr(c.results)][str(id)] &&
+//@       old(haskey(as(ghost.cm_val[arr(c.results)][str(id)], *resultMap).results, ival(rv[0]))) &&
+//@       old(as(ghost.cm_val[arr(c.results)][str(id)], *resultMap).results[ival(rv[0])]) != nil ==>
+//@       ghost.chansent[old(as(ghost.cm_val[arr(c.results)][str(id)], *resultMap).results[ival(rv[0])])] ==
+//@           old(ghost.chansent[as(ghost.cm_val[arr(c.results)][str(id)], *resultMap).results[ival(rv[0])]]) + 1 &&
+//@       same(lastsent(old(as(ghost.cm_val[arr(c.results)][str(id)], *resultMap).results[ival(rv[0])])), rv)
+//@   loop 1 ensures [no_other_caller_receives_anything] forall(q,
+//@       q != ref(old(as(ghost.cm_val[arr(c.results)][str(id)], *resultMap).results[ival(rv[0])])) ==> ghost.chansent[q] == old(ghost.chansent[q]))
+//@   loop 1 ensures [other_pending_calls_stay_registered] ghost.cm_has[arr(c.results)][str(id)] ==> forall(k, k != ival(rv[0]) ==>
+//@       haskey(as(ghost.cm_val[arr(c.results)][str(id)], *resultMap).results, k) == old(haskey(as(ghost.cm_val[arr(c.results)][str(id)], *resultMap).results, k)) &&
+//@       as(ghost.cm_val[arr(c.results)][str(id)], *resultMap).results[k] == old(as(ghost.cm_val[arr(c.results)][str(id)], *resultMap).results[k]))
+//@   ensures [whole_batch_is_consumed] forall(j, 0, len(results), ghost.cm_has[arr(c.results)][str(id)] ==>
+//@       !haskey(as(ghost.cm_val[arr(c.results)][str(id)], *resultMap).results, ival(results[j][0])))
